@@ -80,28 +80,29 @@ type result struct {
 }
 
 type run struct {
-	f         pools.Factory
-	p         pools.Pool
-	ft        fataler
-	opt       runOpt
-	has       map[string]string
-	holder    map[string]string
-	touched   map[string]uint64
-	ambig     map[string]string // release whose persistence failed: subscriber -> value it had
-	maybe     map[string]uint64 // renewal whose persistence failed: took effect or not, resolved by observation
-	ops       []string
-	dead      bool
-	advances  int
-	advSince  map[string]int // advances since the subscriber's current assignment began
-	faulted   bool
-	reasked   bool
-	reapplied bool
-	orphans   []string // values a subscriber was moved away from by a re-ask: must be obtainable again
-	cls       map[string]bool
-	quar      map[string]bool // values taken out of service by a Decline (documented: not returned to the free list)
-	quarLog   []string        // the same in order of quarantine
-	base      map[string]bool // free-list pools: the address set the pool started with (from its own free list)
-	secondary bool            // a secondary mutator changed the state of a live holder
+	f          pools.Factory
+	p          pools.Pool
+	ft         fataler
+	opt        runOpt
+	has        map[string]string
+	holder     map[string]string
+	touched    map[string]uint64
+	ambig      map[string]string // release whose persistence failed: subscriber -> value it had
+	maybe      map[string]uint64 // renewal whose persistence failed: took effect or not, resolved by observation
+	ops        []string
+	dead       bool
+	advances   int
+	advSince   map[string]int // advances since the subscriber's current assignment began
+	faulted    bool
+	reasked    bool
+	reapplied  bool
+	orphans    []string // values a subscriber was moved away from by a re-ask: must be obtainable again
+	cls        map[string]bool
+	quar       map[string]bool // values taken out of service by a Decline (documented: not returned to the free list)
+	quarLog    []string        // the same in order of quarantine
+	base       map[string]bool // free-list pools: the address set the pool started with (from its own free list)
+	secondary  bool            // a secondary mutator changed the state of a live holder
+	conflicted bool            // a peer's conflicting record sits in the shared store (restart outcome is C12's concern)
 }
 
 func (r *run) logf(f string, a ...any) { r.ops = append(r.ops, fmt.Sprintf(f, a...)) }
@@ -659,7 +660,7 @@ func runHistory(ft fataler, f pools.Factory, ops []pools.Op, opt runOpt) result 
 			}
 		case pools.OpReload:
 			rl, ok := r.p.(pools.Reloader)
-			if !ok {
+			if !ok || r.conflicted {
 				continue
 			}
 			if err := rl.Reload(op.P); err != nil {
@@ -710,6 +711,9 @@ func runHistory(ft fataler, f pools.Factory, ops []pools.Op, opt runOpt) result 
 				r.handed(s, v, "allocSpecific")
 			}
 		case pools.OpSetAlloc, pools.OpRemoteSet:
+			if r.f.Usable == 0 {
+				continue // no allocatable value a record could name
+			}
 			v := r.pickVal(op)
 			if op.P%2 == 0 {
 				// half of the record ops re-apply the identical record of a current holder (by construction)
@@ -721,19 +725,28 @@ func runHistory(ft fataler, f pools.Factory, ops []pools.Op, opt runOpt) result 
 					}
 				}
 			}
-			if o, held := r.holder[v]; held && o != s {
-				s = o // a record for a held value can only be its holder's record: re-applied identical record
+			conflict := false
+			if op.P%4 == 1 {
+				// a CONFLICTING record (two partitioned nodes, a stale store entry): it names a value that a different
+				// live subscriber holds. Three of four such records are for a subscriber that holds a value of its own.
+				if cs, co := r.pickConflict(op); co != "" {
+					s, v, conflict = cs, r.has[co], true
+				}
+			}
+			if o, held := r.holder[v]; held && o != s && !conflict {
+				s = o // otherwise a record for a held value is its holder's record: re-applied identical record
 			}
 			identical := r.has[s] == v
+			var callErr error
 			if op.K == pools.OpSetAlloc {
 				sa, ok := r.p.(pools.SetAllocer)
 				if !ok {
 					continue
 				}
-				err := sa.SetAllocation(s, v)
-				r.logf("setAllocation(%s,%s)=%s", s, v, okerr(err))
-				if err != nil {
-					r.fail("set-allocation-failed", "SetAllocation(%s,%s) failed (%v) although nobody else holds the value", s, v, err)
+				callErr = sa.SetAllocation(s, v)
+				r.logf("setAllocation(%s,%s)=%s", s, v, okerr(callErr))
+				if callErr != nil && !conflict {
+					r.fail("set-allocation-failed", "SetAllocation(%s,%s) failed (%v) although nobody else holds the value", s, v, callErr)
 					break
 				}
 			} else {
@@ -745,10 +758,48 @@ func runHistory(ft fataler, f pools.Factory, ops []pools.Op, opt runOpt) result 
 				r.logf("remoteSet(%s,%s)", s, v)
 				r.cls["remote"] = true
 			}
+			if conflict {
+				// either applied consistently (the record displaces the other holder) or refused with NO change;
+				// decided by what the implementation itself reports for the two subscribers, then the ordinary
+				// per-step oracle (Stats, tables, later the drain probe) runs against the outcome
+				o := r.holder[v]
+				prev := r.has[s]
+				gs, _ := r.lookup(s)
+				gotO, _ := r.lookup(o)
+				r.cls["conflicting-record"] = true
+				if prev != "" {
+					r.cls["conflicting-record/subject-holds-other"] = true
+				}
+				r.secondary = true
+				if op.K == pools.OpRemoteSet {
+					r.conflicted = true // the shared store now holds two records for one value: what a restart makes of it is C12's concern
+				}
+				switch {
+				case gs == prev && gotO == v:
+					r.logf("(conflicting record refused)")
+				case gs == v && gotO == "" && callErr == nil:
+					r.logf("(conflicting record applied: %s displaced)", o)
+					r.free(o)
+					if prev != "" {
+						r.free(s)
+					}
+					r.handed(s, v, name)
+				default:
+					r.fail("conflicting-record-half-applied/after-"+name, "record %s -> %s conflicts with live holder %s (result: %s): afterwards lookup(%s)=%q (before: %q), lookup(%s)=%q - neither refused without change nor applied consistently",
+						s, v, o, okerr(callErr), s, gs, prev, o, gotO)
+				}
+				break
+			}
 			if identical {
 				r.reapplied = true
 				r.cls["reapplied-identical"] = true
-				break // same record again: nothing changes
+				if op.K == pools.OpSetAlloc && r.f.Epochal {
+					// EpochBitmapAllocator.SetAllocation "records that subscriberID holds ip, at the current epoch":
+					// applied directly, the same record again restarts the lease (through handleRemoteChange it is
+					// dropped as "already in sync" and changes nothing)
+					r.touched[s] = r.epoch()
+				}
+				break // same record again: nothing else changes
 			}
 			if old, had := r.has[s]; had {
 				delete(r.holder, old) // the authoritative record moved s
@@ -785,6 +836,12 @@ func runHistory(ft fataler, f pools.Factory, ops []pools.Op, opt runOpt) result 
 		r.afterStep(name)
 		if len(r.orphans) > 0 {
 			break // a re-ask changed the value (C01's finding): decide its C05 consequence (leak) by the drain now
+		}
+		if r.conflicted {
+			// the shared store now carries the peer's record for the subject next to the other holder's: the node may
+			// legitimately adopt it later (a renewal re-saves and echoes it once the value is free). What has to hold
+			// for C05 was decided at the step itself; the history ends here and the drain probe runs.
+			break
 		}
 	}
 	return r.finish(maxAdvSinceAlloc)
@@ -827,6 +884,11 @@ func (r *run) finish(maxAdvSinceAlloc int) result {
 			cls = append(cls, "has:"+c)
 		}
 	}
+	for _, c := range []string{"conflicting-record", "conflicting-record/subject-holds-other"} {
+		if r.cls[c] {
+			cls = append(cls, "has:"+c, "has:"+c+"@"+f.Impl)
+		}
+	}
 	for _, c := range []string{"alloc-alt", "release-alt", "decline", "remote"} {
 		if r.cls[c] {
 			cls = append(cls, "has:"+c+"/"+f.Impl)
@@ -847,6 +909,46 @@ func viaAlt(k pools.Kind) string {
 		return "/via-alt-entry"
 	}
 	return ""
+}
+
+// pickConflict chooses (subject, other): other is a live holder, subject a different subscriber - in three of four
+// cases one that holds a value of its own. Subscribers whose state is ambiguous after an injected store failure are left alone.
+func (r *run) pickConflict(op pools.Op) (subject, other string) {
+	clean := func(x string) bool {
+		_, a := r.ambig[x]
+		_, m := r.maybe[x]
+		return !a && !m
+	}
+	var holders []string
+	for _, x := range subs {
+		if _, ok := r.has[x]; ok && clean(x) {
+			holders = append(holders, x)
+		}
+	}
+	if len(holders) == 0 {
+		return "", ""
+	}
+	other = holders[op.V%len(holders)]
+	var cand []string
+	for _, x := range subs {
+		if x == other || !clean(x) {
+			continue
+		}
+		if _, holds := r.has[x]; holds || (op.P>>2)%4 == 0 {
+			cand = append(cand, x)
+		}
+	}
+	if len(cand) == 0 {
+		for _, x := range subs {
+			if x != other && clean(x) {
+				cand = append(cand, x)
+			}
+		}
+	}
+	if len(cand) == 0 {
+		return "", ""
+	}
+	return cand[op.S%len(cand)], other
 }
 
 // pickVal selects a value for value-targeted ops: small unit indices of the pool.
